@@ -123,19 +123,14 @@ Theorem C14_py_setitem : forall s k p s' r, wf s -> py_step s (PySet k p) = (s',
 Proof. exact py_setitem. Qed.
 Print Assumptions C14_py_setitem.
 
-(* Corner: Python ints beyond 32 bits (ctypes keeps the low 32 bits of an int argument).  Through
-   Simulation.remove an index far out of range can remove a live particle: refuted with index 2^32 on a
-   one-particle simulation (open finding py_remove_index_truncated) ... *)
-Theorem C14_py_remove_big_index_refuted : exists s z s' r,
-  wf s /\ (Z.of_nat (sN s) <= z)%Z /\ py_step s (PyRemove (Some z) None true) = (s', r) /\ r = PRNone /\ sN s' < sN s.
-Proof. exact py_remove_big_index_refuted. Qed.
-Print Assumptions C14_py_remove_big_index_refuted.
-(* ... and rejected (RuntimeError, nothing changed) for every out-of-range index that fits a C int *)
-Theorem C14_py_remove_index_rejected_int32 : forall s z keep s' r, wf s ->
-  (-2147483648 <= z < 2147483648)%Z -> (z < 0 \/ Z.of_nat (sN s) <= z)%Z ->
+(* Corner: Python ints of any size.  Simulation.remove(index=z) with z outside [0,N) -- however large -- raises
+   RuntimeError and changes nothing (since 6478df5 the index is range-checked in Python before ctypes would
+   keep only its low 32 bits; finding py_remove_index_truncated, fixed) *)
+Theorem C14_py_remove_index_rejected : forall s z keep s' r,
+  (z < 0 \/ Z.of_nat (sN s) <= z)%Z ->
   py_step s (PyRemove (Some z) None keep) = (s', r) -> r = PRRuntimeError /\ s' = s.
-Proof. exact py_remove_index_rejected_int32. Qed.
-Print Assumptions C14_py_remove_index_rejected_int32.
+Proof. exact py_remove_index_rejected. Qed.
+Print Assumptions C14_py_remove_index_rejected.
 
 (* ---- MERCURIUS / TRACE bookkeeping of reb_simulation_remove_particle and reb_simulation_add:
    coq/C14/Hybrid.v (model), coq/C14/HybridProofs.v *)
